@@ -986,6 +986,11 @@ func resetCounts(c *Ctx, id string) {
 					if len(sl.cells) != want {
 						return fmt.Sprintf("a vBucket gets %d records for %d replicas (expected %d)", len(sl.cells), st.C("replicas"), want)
 					}
+					for i, cl := range sl.cells {
+						if p, isP := cl.val.(avPtr); !isP || p.c == nil {
+							return fmt.Sprintf("record %d of a vBucket is left nil", i)
+						}
+					}
 				}
 			}
 		}
@@ -1142,4 +1147,185 @@ func cbLoadReader(c *Ctx, id string) {
 		}
 		return ""
 	}, "document → installed, exists; unparsable / key-not-found → empty document, existence untouched; other error → panic; Done once")
+}
+
+// observeRoundAccounting (C07): one observe round hands out exactly one completion per (vBucket, copy): for each copy
+// of the ranged vBucket the loop either signals Done itself (copy absent; mitigation closed or generation stale) or
+// starts one observe for that copy index, with the branch id recorded for that vBucket — evaluated for 0..3 copies
+// over all absent patterns × closed × stale. A round that loses a signal never ends; one that signals twice panics.
+func observeRoundAccounting(c *Ctx, id string) {
+	w := c.W
+	so := w.Method("couchbase", "rollbackMitigation", "startObserve")
+	ob := w.Method("couchbase", "rollbackMitigation", "observe")
+	rec := replicaStateType(w)
+	c.need(so != nil && ob != nil && rec != nil, id, "rollbackMitigation.startObserve / observe")
+	var cb *ssa.Function
+	for _, f := range withAnon(so) {
+		if f == so {
+			continue
+		}
+		if len(callsIn(f, ob)) > 0 {
+			cb = f
+		}
+	}
+	c.need(cb != nil && len(cb.Params) == 2, id, "the Range callback of the observe round")
+	ia := w.Method("couchbase", rec.Obj().Name(), "IsAbsent")
+	c.need(ia != nil, id, "IsAbsent")
+	rmClosed := flagSetBy(w, w.Method("couchbase", "rollbackMitigation", "Stop"))
+	for k := 0; k <= 3; k++ {
+		kk := k
+		bools := []string{"r." + rmClosed}
+		for i := 0; i < k; i++ {
+			bools = append(bools, fmt.Sprintf("absent%d", i))
+		}
+		h := &Harness{Fn: cb, Bools: bools, Quiet: quietLog, MaxSteps: 8000,
+			Groups:   []Group{{Atoms: []string{"r.activeGroupID", "groupID"}, EqOnly: true}},
+			NoInline: map[string]bool{fname(ob): true, fname(ia): true},
+			Args: map[string]func(st *State) AV{cb.Params[1].Name(): func(st *State) AV {
+				var cs []*cell
+				for i := 0; i < kk; i++ {
+					cs = append(cs, &cell{typ: types.NewPointer(rec), sym: fmt.Sprintf("copy%d", i)})
+				}
+				return avSlice{cells: cs}
+			}},
+			Oracle: func(st *State, name string, args []AV, res *types.Tuple) ([]AV, bool) {
+				switch {
+				case name == fname(ia):
+					a := avString(args[0])
+					for i := 0; i < kk; i++ {
+						if strings.Contains(a, fmt.Sprintf("copy%d", i)) {
+							return []AV{avBool{st.B(fmt.Sprintf("absent%d", i))}}, true
+						}
+					}
+					return []AV{avOpaque{"IsAbsent of an unknown copy"}}, true
+				case strings.HasSuffix(name, ".vbUUIDMap.Load"):
+					return []AV{avInt{atom: "recordedBranch"}, avBool{true}}, true
+				}
+				return nil, false
+			}}
+		c.oae(id, fmt.Sprintf("round-accounting[%d copies]", k), cb.Pos(), h, func(st *State, out *Outcome) string {
+			if out.Panicked {
+				return "panics"
+			}
+			stale := st.B("r."+rmClosed) || !st.Eq("r.activeGroupID", "groupID")
+			nDone := len(out.Effects("(*sync.WaitGroup).Done"))
+			obs := out.Effects(fname(ob))
+			wantDone, wantObs := 0, 0
+			for i := 0; i < kk; i++ {
+				if st.B(fmt.Sprintf("absent%d", i)) || stale {
+					wantDone++
+				} else {
+					wantObs++
+				}
+			}
+			if nDone != wantDone || len(obs) != wantObs {
+				return fmt.Sprintf("%d Done signals and %d observes for %d copies (expected %d and %d)", nDone, len(obs), kk, wantDone, wantObs)
+			}
+			// each observe is for its own copy index, this vBucket, this generation, the recorded branch, this round's group
+			seen := map[string]bool{}
+			for _, e := range obs {
+				if len(e.Args) != 6 {
+					return "unexpected observe arity: " + e.String()
+				}
+				idx := avString(e.Args[2])
+				if seen[idx] {
+					return "copy " + idx + " is observed twice"
+				}
+				seen[idx] = true
+				if i, ok := e.Args[2].(avInt); !ok || i.atom != "" || i.conc < 0 || int(i.conc) >= kk || st.B(fmt.Sprintf("absent%d", i.conc)) {
+					return "an absent or non-existing copy is observed: " + e.String()
+				}
+				if !strings.Contains(avString(e.Args[1]), cb.Params[0].Name()) {
+					return "observe for another vBucket: " + e.String()
+				}
+				if avString(e.Args[4]) != "recordedBranch" {
+					return "observe under " + avString(e.Args[4]) + ", not under the branch id recorded for the vBucket"
+				}
+			}
+			if b, ok := out.Ret[0].(avBool); !ok || !b.b {
+				return "the round stops before it has seen every vBucket"
+			}
+			return ""
+		}, "per copy exactly one of: Done (absent, or closed/stale) | observe(vbID, own index, generation, recorded branch, round)")
+	}
+}
+
+// mitigationStopHandshake (C13/C07): Stop and reconfigure end the running observe loop ⇔ there is one: the timer is
+// stopped, the close request sent and the acknowledgement awaited exactly under observeTimer≠nil; reconfigure's panic is
+// under the error of markAbsentInstances; the first configuration is stored under err==nil.
+func mitigationStopHandshake(c *Ctx, id string) {
+	w := c.W
+	tick := w.Field("couchbase", "rollbackMitigation", "observeTimer")
+	c.need(tick != nil, id, "rollbackMitigation.observeTimer")
+	for _, name := range []string{"Stop", "reconfigure"} {
+		fn := w.Method("couchbase", "rollbackMitigation", name)
+		if fn == nil {
+			c.Undecided(id, "stop-handshake@"+name, 0, "rollbackMitigation.%s not found", name)
+			continue
+		}
+		c.see(fn)
+		var bad []string
+		n := 0
+		allInstrs(fn, func(in ssa.Instruction) {
+			what := ""
+			switch x := in.(type) {
+			case *ssa.Send:
+				if strings.HasSuffix(w.Origin(x.Chan), ".observeCloseCh") {
+					what = "close request"
+				}
+			case *ssa.UnOp:
+				if x.Op.String() == "<-" && strings.HasSuffix(w.Origin(x.X), ".observeCloseDoneCh") {
+					what = "acknowledgement"
+				}
+			case *ssa.Call:
+				if calleeName(x.Common()) == "(*time.Ticker).Stop" || calleeName(x.Common()) == "(*time.Timer).Stop" {
+					what = "timer stop"
+				}
+			}
+			if what == "" {
+				return
+			}
+			n++
+			gs := guardsOf(in.Block())
+			ok := len(gs) == 1
+			if ok {
+				v, pol := stripNot(gs[0].Cond, gs[0].Branch)
+				eq, isCmp := isNilCompare(v, func(y ssa.Value) bool { return loadedField(unwrap(y)) == tick })
+				ok = isCmp && eq != pol
+			}
+			if !ok {
+				bad = append(bad, what+" @"+w.pos(in.Pos()))
+			}
+		})
+		c.Check(len(bad) == 0 && n == 3, id, "stop-handshake@"+name, fn.Pos(), "timer stop, close request and acknowledgement happen ⇔ an observe loop is running (observeTimer≠nil)", fmt.Sprintf("%s does not perform its three-step handshake exactly under observeTimer≠nil (%d steps found; misguarded: %v): the observe loop outlives the stop, or a nil timer is dereferenced", name, n, bad))
+	}
+	if rc, ma := w.Method("couchbase", "rollbackMitigation", "reconfigure"), w.Method("couchbase", "rollbackMitigation", "markAbsentInstances"); rc != nil && ma != nil {
+		nP := 0
+		allInstrs(rc, func(in ssa.Instruction) {
+			if _, isP := in.(*ssa.Panic); isP {
+				nP++
+				okG := errGuard(in.Block(), false, func(v ssa.Value) bool {
+					call, ok := v.(*ssa.Call)
+					return ok && call.Common().StaticCallee() == ma
+				})
+				c.Check(okG, id, "reconfigure-panic", in.Pos(), "reconfigure panics ⇔ the cluster map could not be read while marking unassigned copies", "reconfigure's panic is not guarded by the error of markAbsentInstances")
+			}
+		})
+		if nP == 0 {
+			c.Fail(id, "reconfigure-panic", rc.Pos(), "a cluster map that cannot be read no longer stops the client: copies that should be left out are waited for")
+		}
+	}
+	if wfc := w.Method("couchbase", "rollbackMitigation", "waitFirstConfig"); wfc != nil && len(wfc.AnonFuncs) == 1 {
+		cb := wfc.AnonFuncs[0]
+		snap := w.Field("couchbase", "rollbackMitigation", "configSnapshot")
+		ok := false
+		allInstrs(cb, func(in ssa.Instruction) {
+			if st, isSt := in.(*ssa.Store); isSt && fieldOfAddr(st.Addr) == snap && strings.HasSuffix(w.Origin(st.Val), ".Snapshot") && strings.HasPrefix(w.Origin(st.Val), "param(") {
+				if errGuard(in.Block(), true, func(v ssa.Value) bool { _, isP := v.(*ssa.Parameter); return isP }) {
+					ok = true
+				}
+			}
+		})
+		c.Check(ok, id, "first-config-stored", cb.Pos(), "the first configuration is recorded under err==nil", "waitFirstConfig's callback does not record result.Snapshot under err==nil: the component starts without a cluster map")
+	}
 }
